@@ -370,6 +370,9 @@ class MediaWorld(MediaBase):
                 for i in range(8, len(body) - 3, 4):
                     pid, blp = struct.unpack_from("!HH", body, i)
                     n += 1 + bin(blp).count("1")
+                    if self.nack_in_call is not None:
+                        self.nack_in_call.add(pid)
+                        self.nack_in_call.update((pid + b + 1) & 0xFFFF for b in range(16) if blp & (1 << b))
                 self.probes["nacks"] += 1
                 self.log.add("nack", n)
                 if n > 128:
@@ -472,6 +475,38 @@ class MediaWorld(MediaBase):
                 return await _orig(data)
 
             pair.dtls[n]._send_rtp = send_rtp
+        # every newly detected gap is requested at once: the handling of the packet that reveals it sends a NACK that
+        # lists the packets of the gap (those within the 128-packet window)
+        self.gap_max = None
+        self.nack_in_call = None
+        orig_handle = receiver._handle_rtp_packet
+
+        async def handle(packet, arrival_time_ms, _orig=orig_handle):
+            gap = []
+            if packet.ssrc == cfg["ssrc"] and packet.payload_type == 96:
+                seq = packet.sequence_number
+                if self.gap_max is None:
+                    self.gap_max = seq
+                else:
+                    d = (seq - self.gap_max) & 0xFFFF
+                    if 0 < d < 0x8000:
+                        if 2 <= d <= 128:
+                            gap = [(self.gap_max + i) & 0xFFFF for i in range(1, d)]
+                        self.gap_max = seq
+            self.nack_in_call = set() if gap else None
+            try:
+                return await _orig(packet, arrival_time_ms=arrival_time_ms)
+            finally:
+                listed, self.nack_in_call = self.nack_in_call, None
+                if gap and not self.violations:
+                    self.probes["gaps_revealed"] += 1
+                    absent = [x for x in gap if x not in (listed or ())]
+                    if absent:
+                        self.violation("C11", "newly-missing-packets-not-requested",
+                                       "packet %d revealed that %r are missing; the receiver sent %s" % (
+                                           packet.sequence_number, gap[:6], "no NACK" if not listed else "a NACK without %r" % absent[:6]))
+
+        receiver._handle_rtp_packet = handle
         jb = receiver._RTCRtpReceiver__jitter_buffer
         jb_add = jb.add
 
